@@ -529,6 +529,46 @@ impl<P: Payload> Ctx<P> {
     }
 }
 
+// ---------------------------------------------------------------------------
+// "Safe code may move whatever is Unpin": between two polls the harness moves a future /
+// stream to a new heap location whenever its type is `Unpin` (autoref specialisation: the
+// by-reference impl with the `Unpin` bound wins when it applies, otherwise the fallback
+// leaves the value pinned where it is).  On the unchanged tree both futures are `!Unpin`
+// (PhantomPinned) and are never moved; the stream is `Unpin` (it boxes its future) and is
+// moved.  A change that makes a future `Unpin` while the waiting list still points into it
+// shows up as `uaf` (the old location is retired and quarantined) - C07.
+pub struct Mover<F>(pub std::marker::PhantomData<F>);
+pub trait MoveIfUnpin<F> {
+    fn mv(&self, b: std::pin::Pin<Box<F>>) -> (std::pin::Pin<Box<F>>, bool);
+}
+impl<F: Unpin> MoveIfUnpin<F> for Mover<F> {
+    fn mv(&self, b: std::pin::Pin<Box<F>>) -> (std::pin::Pin<Box<F>>, bool) {
+        let old = &*b as *const F as usize;
+        let v: F = *std::pin::Pin::into_inner(b);
+        let nb = Box::pin(v);
+        let new = &*nb as *const F as usize;
+        rt::fresh(new, std::mem::size_of::<F>());
+        rt::retire_within(old, std::mem::size_of::<F>());
+        rt::count_moved();
+        (nb, true)
+    }
+}
+pub trait MoveFallback<F> {
+    fn mv(&self, b: std::pin::Pin<Box<F>>) -> (std::pin::Pin<Box<F>>, bool);
+}
+impl<F> MoveFallback<F> for &Mover<F> {
+    fn mv(&self, b: std::pin::Pin<Box<F>>) -> (std::pin::Pin<Box<F>>, bool) {
+        (b, false)
+    }
+}
+macro_rules! move_if_unpin {
+    ($slot:expr, $ty:ty) => {{
+        let b = $slot.take().unwrap();
+        let (nb, _moved) = (&Mover::<$ty>(std::marker::PhantomData)).mv(b);
+        $slot = Some(nb);
+    }};
+}
+
 enum AsyncOut<T> {
     Ready(T),
     Dropped(u32),
@@ -776,17 +816,25 @@ fn exec_op<P: Payload>(cx: &mut Ctx<P>, gi: u32, slot: usize, k: K, op: Op) -> R
             // Safety: the handle lives in a Box that is neither moved nor dropped while
             // this future exists (it is consumed before this function returns).
             let fut: kanal::SendFuture<'static, P> = unsafe { std::mem::transmute(fut) };
-            let mut fut = Box::pin(fut);
+            let fut = Box::pin(fut);
             rt::fresh(
                 &*fut as *const _ as usize,
                 std::mem::size_of::<kanal::SendFuture<'static, P>>(),
             );
+            let mut fut = Some(fut);
+            let mut polled = false;
             let script = decode_script(op.a, op.b, cx.bias);
             let (out, _) = drive(
                 gi,
                 script,
                 None,
-                |w| fut.as_mut().poll(&mut Context::from_waker(w)),
+                |w| {
+                    if polled {
+                        move_if_unpin!(fut, kanal::SendFuture<'static, P>);
+                    }
+                    polled = true;
+                    fut.as_mut().unwrap().as_mut().poll(&mut Context::from_waker(w))
+                },
                 false,
             );
             match out {
@@ -904,17 +952,25 @@ fn exec_op<P: Payload>(cx: &mut Ctx<P>, gi: u32, slot: usize, k: K, op: Op) -> R
             let h = cx.tab()[slot].as_ref().unwrap();
             let fut = h.async_r().recv();
             let fut: kanal::ReceiveFuture<'static, P> = unsafe { std::mem::transmute(fut) };
-            let mut fut = Box::pin(fut);
+            let fut = Box::pin(fut);
             rt::fresh(
                 &*fut as *const _ as usize,
                 std::mem::size_of::<kanal::ReceiveFuture<'static, P>>(),
             );
+            let mut fut = Some(fut);
+            let mut polled = false;
             let script = decode_script(op.a, op.b, cx.bias);
             let (out, _) = drive(
                 gi,
                 script,
                 None,
-                |w| fut.as_mut().poll(&mut Context::from_waker(w)),
+                |w| {
+                    if polled {
+                        move_if_unpin!(fut, kanal::ReceiveFuture<'static, P>);
+                    }
+                    polled = true;
+                    fut.as_mut().unwrap().as_mut().poll(&mut Context::from_waker(w))
+                },
                 false,
             );
             match out {
@@ -942,15 +998,21 @@ fn exec_op<P: Payload>(cx: &mut Ctx<P>, gi: u32, slot: usize, k: K, op: Op) -> R
             }
             let sid = (cx.t as u32) * 100 + cx.stream_seq;
             upd(gi, |o| o.stream_id = sid);
-            let (s_slot, mut st, w, wid) = cx.stream.take().unwrap();
+            let (s_slot, st, w, wid) = cx.stream.take().unwrap();
+            let mut st = Some(st);
             let script = decode_script(op.a, op.b, cx.bias);
             let (out, wk) = drive(
                 gi,
                 script,
                 Some((w, wid)),
-                |w| st.as_mut().poll_next(&mut Context::from_waker(w)),
+                |w| {
+                    // a stream that is `Unpin` may be moved between any two polls
+                    move_if_unpin!(st, ReceiveStream<'static, P>);
+                    st.as_mut().unwrap().as_mut().poll_next(&mut Context::from_waker(w))
+                },
                 true,
             );
+            let st = st.unwrap();
             match out {
                 AsyncOut::Ready(Some(v)) => {
                     let (w, wid) = wk.unwrap();
